@@ -26,7 +26,7 @@ Record fargs := mkFargs {
   fa_reader : nsd              (* prefixes the reader integrates into the dict (rdflib input); [] for line readers *)
 }.
 
-Definition US : str := [ascii_of_nat 31].
+Definition US : str := Str "^".
 
 Definition show_dict (d : nsd) : str :=
   join (Str ",") (map (fun np : str * str => snd np ++ Str "=" ++ fst np) d).
